@@ -19,6 +19,8 @@ BOUNDARY = [
     '{}', '{a: 1}', '{a: 1, b:: 2, c::: 3}', '{"": {}}', 'function(x) x', 'function(x, y) x', 'function() 1', 'std',
     'std.range(0, 300)', 'std.repeat("ab", 200)', '{[std.toString(i)]: i for i in std.range(0, 40)}', 'error "arg"',
 ]
+CALLBACKS = ['function(x) x', 'function(x, y) x + y', 'function() 1', 'function(x, y, z) z', 'function(x, y=1) y', 'std.pow', 'std.length']
+CONTAINERS = ['[1, 2]', '["a", "b"]', '"ab"', '{a: 1, b: 2}', '[[1], [2]]', '[]', '""', '{}', '2', '0']
 SMALL = ['null', 'true', '0', '-1', '1.5', '1e308', '5e-324', '9007199254740992', '""', '"a"', '"é😀"', '[]', '[1, "a"]', '{}', '{a: 1}',
          'function(x) x', 'error "arg"']
 
@@ -138,14 +140,17 @@ def run(rep):
             for v in BOUNDARY:
                 calls.append('std.%s(%s)' % (name, v))
         elif arity == 2:
-            vals = BOUNDARY if not quick else rng.sample(BOUNDARY, 14)
-            for v1 in vals:
-                for v2 in (rng.sample(BOUNDARY, 10) if quick else BOUNDARY):
+            # callbacks of every arity and non-empty containers are always part of the grid
+            vals1 = BOUNDARY if not quick else sorted(set(rng.sample(BOUNDARY, 10) + CALLBACKS + CONTAINERS))
+            for v1 in vals1:
+                vals2 = BOUNDARY if not quick else sorted(set(rng.sample(BOUNDARY, 6) + CALLBACKS + CONTAINERS))
+                for v2 in vals2:
                     calls.append('std.%s(%s, %s)' % (name, v1, v2))
         else:
-            n = 120 if quick else 1500
+            n = 150 if quick else 2000
             for _ in range(n):
-                calls.append('std.%s(%s)' % (name, ', '.join(rng.choice(BOUNDARY if rng.random() < 0.5 else SMALL) for _ in range(arity))))
+                pool = rng.choice([BOUNDARY, SMALL, CALLBACKS + CONTAINERS])
+                calls.append('std.%s(%s)' % (name, ', '.join(rng.choice(pool if rng.random() < 0.7 else SMALL) for _ in range(arity))))
     # operators on the same grid
     for op in ['+', '-', '*', '/', '%', '<<', '>>', '&', '|', '^', '<', '<=', '==', '!=', 'in', '&&', '||']:
         for _ in range(40 if quick else 600):
